@@ -17,6 +17,12 @@ CONSTANTS W, B,        \* receive window, accept backlog
           WireCap,     \* messages in flight per direction (write buffers + carrier)
           DoExport,    \* TRUE: print a BEHAVIOUR line at every terminal state
           OpenRaceBug, \* TRUE: OpenStream as it was before the repair (allocation and queuing not atomic)
+          Acts,        \* API calls the application may issue: subset of {"open","accept","cancel","write","read","cw","close",
+                       \*   "wstart","rstart","setwd","setrd"}  (write/read are deadline-bounded, wstart/rstart may stay blocked)
+          Modes,       \* deadline modes for setwd/setrd: subset of {"clear","past","far","soon"}
+          DlEnds,      \* endpoints that may issue wstart / rstart / setwd / setrd
+          PreEst,      \* TRUE: start with stream 1 opened by endpoint 0 and accepted by endpoint 1
+          BlockOnRoom, \* TRUE: a Write that finds no write buffer blocks (cap = WireCap) instead of not being issued
           TrackKinds   \* kinds of state-preserving calls remembered in the view (so that exported behaviours contain them)
 
 VARIABLES st, ops, hist, kinds
@@ -34,15 +40,22 @@ Api(S, h) == ApiK(S, h, {})
 Bg(S, h) == /\ st' = S /\ ops' = ops /\ hist' = Append(hist, h) /\ UNCHANGED kinds
 Quiet(S) == /\ st' = S /\ UNCHANGED <<ops, hist, kinds>>
 
-Init == st = InitS(W, B) /\ ops = 0 /\ hist = <<>> /\ kinds = {}
+ModeNo(m) == CASE m = "clear" -> 0 [] m = "past" -> 1 [] m = "far" -> 2 [] OTHER -> 3
+Base == [InitS(W, B) EXCEPT !.cap = IF BlockOnRoom THEN WireCap ELSE 0]
+Established == DoOpenReturn(DoRecv(DoAcceptOK(DoRecv(DoOpen(Base, 0), 1), 1), 0), 0, 1)
+EstablishedHist == <<Step("open", 0, 1, 0), Step("recv", 1, 0, 0), Step("accept", 1, 0, 0),
+                     Step("recv", 0, 0, 0), Step("openret", 0, 1, 0)>>
+Init == /\ st = (IF PreEst THEN Established ELSE Base)
+        /\ hist = (IF PreEst THEN EstablishedHist ELSE <<>>)
+        /\ ops = 0 /\ kinds = {}
 
-Open(e) == /\ e \in Openers /\ CanOpen(st, e)
+Open(e) == /\ "open" \in Acts /\ e \in Openers /\ CanOpen(st, e)
            /\ IF OpenRaceBug THEN Api(DoOpenAlloc(st, e), Step("open", e, st.nextOut[e], 0))
               ELSE Room(e) /\ Api(DoOpen(st, e), Step("open", e, st.nextOut[e], 0))
 OpenSend(e, s) == /\ s \in st.unsent[e] /\ Room(e) /\ Quiet(DoOpenSend(st, e, s))
 OpenReturn(e, s) == /\ OpenPending(st, e, s) /\ OpenOutcome(st, e, s) # "pending"
                     /\ Bg(DoOpenReturn(st, e, s), Step("openret", e, s, 0))
-CancelOpen(e, s) == /\ OpenPending(st, e, s) /\ OpenOutcome(st, e, s) = "pending"
+CancelOpen(e, s) == /\ "cancel" \in Acts /\ OpenPending(st, e, s) /\ OpenOutcome(st, e, s) = "pending"
                     /\ Api(DoCancelOpen(st, e, s), Step("cancel", e, s, 0))
 
 \* AcceptStream loops over stale entries; when the backlog runs empty it blocks (the driver's context then expires)
@@ -50,29 +63,65 @@ RECURSIVE AcceptSet(_, _)
 AcceptSet(S, e) ==
   IF ~CanAccept(S, e) THEN {S}
   ELSE {DoAcceptOK(S, e)} \cup (IF S.ss[e][AcceptHead(S, e)].rcl THEN AcceptSet(DoAcceptStale(S, e), e) ELSE {})
-Accept(e) == /\ CanAccept(st, e) /\ Room(e)
+Accept(e) == /\ "accept" \in Acts /\ CanAccept(st, e) /\ Room(e)
              /\ \E T \in AcceptSet(st, e) : Api(T, Step("accept", e, 0, 0))
 
+Payload(e, s, n) == LET base == Len(st.written[e][s]) + Len(st.wb[e][s].data) IN [i \in 1..n |-> Byte(e, s, base + i)]
+\* would the call take a write buffer right away?
+WouldSend(e, s, n) == n > 0 /\ WriteErr(st, e, s) = "" /\ ~st.wx[e][s] /\ st.wt[e][s] # "fired" /\ st.swr[e][s]
+
+\* kinds "wfollow"/"rfollow": the stream is used again after a blocked call was ended by a deadline and the
+\* deadline was cleared (a state-preserving continuation on a conforming implementation)
+\* (kinds carry the endpoint: "wsp0", "wfollow1", ...)
+KE(name, e) == IF e = 0 THEN name \o "0" ELSE name \o "1"
+WFollow(e, s) == IF kinds \cap {KE("wsp", e), KE("wss", e)} # {} /\ ~st.wx[e][s] THEN {KE("wfollow", e)} ELSE {}
+RFollow(e, s) == IF kinds \cap {KE("rsp", e), KE("rss", e)} # {} /\ ~st.rx[e][s] THEN {KE("rfollow", e)} ELSE {}
+
+\* deadline-bounded Write: SetWriteDeadline(future); Write; SetWriteDeadline(zero)
 Write(e, s, n) ==
-  /\ st.ss[e][s].api
-  /\ IF WriteErr(st, e, s) # "" THEN Api(st, Step("write", e, s, n))
-     ELSE LET k == WriteAmount(st, e, s, n)
-              base == Len(st.written[e][s])
-              data == [i \in 1..k |-> Byte(e, s, base + i)] IN
-          /\ k > 0 => Room(e)
-          /\ ApiK(DoWrite(st, e, s, data), Step("write", e, s, n),
-                  IF n = 0 THEN {"zw"} ELSE IF k < n THEN {"wt"} ELSE {})
+  /\ "write" \in Acts /\ st.ss[e][s].api /\ ~WriteBusy(st, e, s)
+  /\ (WouldSend(e, s, n) /\ ~BlockOnRoom) => Room(e)
+  /\ LET A == DoWriteBounded(st, e, s, Payload(e, s, n)) IN
+     ApiK(DoWEnd(A, e, s), Step("write", e, s, n),
+          (IF n = 0 /\ A.wb[e][s].res = "" THEN {"zw"} ELSE IF A.wb[e][s].res = "timeout" THEN {"wt"} ELSE {})
+          \cup WFollow(e, s))
 
+\* deadline-bounded Read
 Read(e, s, k) ==
-  /\ st.ss[e][s].api
-  /\ LET o == ReadOutcome(st, e, s) IN
-     ApiK(IF o = "data" THEN DoReadData(st, e, s, ReadAmount(st, e, s, k))
-          ELSE IF o = "EOF" THEN DoReadEOF(st, e, s) ELSE st, Step("read", e, s, k),
-          IF o = "data" /\ k = 0 THEN {"zr"} ELSE IF o = "timeout" THEN {"rt"} ELSE {})
+  /\ "read" \in Acts /\ st.ss[e][s].api /\ ~ReadBusy(st, e, s)
+  /\ LET A == DoReadBounded(st, e, s, k) IN
+     ApiK(DoREnd(A, e, s), Step("read", e, s, k),
+          (IF k = 0 /\ A.rb[e][s].res = "" THEN {"zr"} ELSE IF A.rb[e][s].res = "timeout" THEN {"rt"} ELSE {})
+          \cup RFollow(e, s))
 
-CloseWrite(e, s) == /\ st.ss[e][s].api /\ ~st.ss[e][s].cw
+\* Write / Read without a deadline: the call may stay blocked; its return is collected by wend / rend
+WStart(e, s, n) ==
+  /\ "wstart" \in Acts /\ e \in DlEnds /\ st.ss[e][s].api /\ ~WriteBusy(st, e, s)
+  /\ (WouldSend(e, s, n) /\ ~BlockOnRoom) => Room(e)
+  /\ ApiK(DoWStart(st, e, s, Payload(e, s, n)), Step("wstart", e, s, n), WFollow(e, s))
+WEnd(e, s) == st.wb[e][s].fin /\ Bg(DoWEnd(st, e, s), Step("wend", e, s, 0))
+RStart(e, s, k) ==
+  /\ "rstart" \in Acts /\ e \in DlEnds /\ st.ss[e][s].api /\ ~ReadBusy(st, e, s)
+  /\ ApiK(DoRStart(st, e, s, k), Step("rstart", e, s, k), RFollow(e, s))
+REnd(e, s) == st.rb[e][s].fin /\ Bg(DoREnd(st, e, s), Step("rend", e, s, 0))
+
+\* SetWriteDeadline / SetReadDeadline at any time, in particular while a call is blocked
+\* kinds "wsp"/"wss"/"rsp"/"rss": a blocked Write/Read was ended by a deadline in the past / by one that passed;
+\* afterwards the protocol state equals states reachable without it, so the kind keeps these paths in the export
+SetWD(e, s, m) ==
+  /\ "setwd" \in Acts /\ e \in DlEnds /\ st.ss[e][s].api
+  /\ LET T == DoSetWD(st, e, s, m) IN
+     ApiK(T, Step("setwd", e, s, ModeNo(m)),
+          IF st.wb[e][s].on /\ T.wb[e][s].fin THEN (IF m = "past" THEN {KE("wsp", e)} ELSE {KE("wss", e)}) ELSE {})
+SetRD(e, s, m) ==
+  /\ "setrd" \in Acts /\ e \in DlEnds /\ st.ss[e][s].api
+  /\ LET T == DoSetRD(st, e, s, m) IN
+     ApiK(T, Step("setrd", e, s, ModeNo(m)),
+          IF st.rb[e][s].on /\ T.rb[e][s].fin THEN (IF m = "past" THEN {KE("rsp", e)} ELSE {KE("rss", e)}) ELSE {})
+
+CloseWrite(e, s) == /\ "cw" \in Acts /\ st.ss[e][s].api /\ ~st.ss[e][s].cw
                     /\ Api(DoCloseWrite(st, e, s), Step("cw", e, s, 0))
-Close(e, s) == /\ st.ss[e][s].api /\ ~st.ss[e][s].cl
+Close(e, s) == /\ "close" \in Acts /\ st.ss[e][s].api /\ ~st.ss[e][s].cl
                /\ Api(DoClose(st, e, s), Step("close", e, s, 0))
 
 Flush(e) == /\ CanFlush(st, e) /\ Room(e) /\ Quiet(DoFlush(st, e))
@@ -92,8 +141,15 @@ NCloseWrite == More /\ \E e \in E, s \in Ids : CloseWrite(e, s)
 NClose == More /\ \E e \in E, s \in Ids : Close(e, s)
 NWrite == More /\ \E e \in E, s \in Ids, n \in 0..MaxWrite : Write(e, s, n)
 NRead == More /\ \E e \in E, s \in Ids, k \in 0..MaxRead : Read(e, s, k)
+NWStart == More /\ \E e \in E, s \in Ids, n \in 1..MaxWrite : WStart(e, s, n)
+NRStart == More /\ \E e \in E, s \in Ids, k \in 1..MaxRead : RStart(e, s, k)
+NWEnd == Can /\ \E e \in E, s \in Ids : WEnd(e, s)
+NREnd == Can /\ \E e \in E, s \in Ids : REnd(e, s)
+NSetWD == More /\ \E e \in E, s \in Ids, m \in Modes : SetWD(e, s, m)
+NSetRD == More /\ \E e \in E, s \in Ids, m \in Modes : SetRD(e, s, m)
 Next == \/ NRecv \/ NFlush \/ NOpenReturn \/ NOpenSend \/ NOpen \/ NAccept \/ NCancelOpen
         \/ NCloseWrite \/ NClose \/ NWrite \/ NRead
+        \/ NWStart \/ NRStart \/ NWEnd \/ NREnd \/ NSetWD \/ NSetRD
 
 Spec == Init /\ [][Next]_vars
 
@@ -104,12 +160,16 @@ InvNoCrossTalk == C23_NoCrossTalk(st)
 InvNoViolation == C24_NoViolation(st)
 InvWindow == WindowRespected(st)
 InvWire == WireConforms(st)
+InvTokens == TokensOK(st)
 
 \* ---- behaviour export ----
+RECURSIVE SetSeqS(_)
+SetSeqS(T) == IF T = {} THEN <<>> ELSE LET x == CHOOSE y \in T : TRUE IN <<x>> \o SetSeqS(T \ {x})
 Terminal ==
   /\ ops = Budget
   /\ \A e \in E : ~CanRecv(st, e) /\ ~CanFlush(st, e) /\ st.unsent[e] = {}
   /\ \A e \in E, s \in Ids : ~(OpenPending(st, e, s) /\ OpenOutcome(st, e, s) # "pending")
+  /\ \A e \in E, s \in Ids : ~st.wb[e][s].fin /\ ~st.rb[e][s].fin
 Export == (DoExport /\ Terminal) =>
-  PrintT(<<"BEHAVIOUR", ToJson([w |-> W, b |-> B, steps |-> hist])>>)
+  PrintT(<<"BEHAVIOUR", ToJson([w |-> W, b |-> B, steps |-> hist, kinds |-> SetSeqS(kinds)])>>)
 ====
